@@ -883,7 +883,40 @@ def run(case):
         for r in readers:
             check_reader(r, where)
 
-    def do_write(ops, commit, where, replacement=None):
+    def apply_policy_rule(rule, where, before, nlog):
+        """set_max_versions / set_pruning_policy: a prune point, whether or not a writer is open"""
+        if rule[0] == "max_versions":
+            n = rule[1]
+            if n == 0:
+                try:
+                    zone.set_max_versions(0)
+                except ValueError:
+                    classes.add("max-versions-0-rejected")
+                else:
+                    raise Violation("retention", "set_max_versions(0) did not raise ValueError", "max0")
+                invariants(where, before, False, nlog=nlog)
+            else:
+                zone.set_max_versions(n)
+                w.policy = ("keep_all",) if n is None else ("max", n)
+                w.wrap_policy()
+                invariants(where, before, True, nlog=nlog, logged=False)
+                classes.add("set_max_versions")
+        else:
+            spec = tuple(rule[1])
+            if spec[0] == "default":
+                zone.set_pruning_policy(None)
+                w.policy = spec
+                w.wrap_policy()
+                invariants(where, before, True, nlog=nlog, logged=False)
+            else:
+                w.policy = spec
+                zone.set_pruning_policy(w.make_policy(spec))
+                invariants(where, before, True, nlog=nlog)
+            classes.add("policy:" + spec[0])
+
+    midstate = {}
+
+    def do_write(ops, commit, where, replacement=None, mid=None):
         """-> (changed, model txn); replacement=<serial>: a writer(replacement=True) that starts
         from nothing (what a reload or an AXFR does) and first stores an SOA with that serial"""
         if replacement is None:
@@ -947,6 +980,12 @@ def run(case):
         lo, hi = mt.changed_bounds()
         if (lo and not changed) or (changed and not hi):
             raise Violation("conformance", f"{where}: changed() is {changed}, model bounds {(lo, hi)}", "changed")
+        if mid is not None:
+            # a policy change while this writer is still open: it is a prune point like any other
+            apply_policy_rule(mid, where + " (writer open)", w.ids(), len(w.log))
+            classes.add("policy-change-while-writer-open")
+            midstate["before"] = w.ids()
+            midstate["nlog"] = len(w.log)
         if commit:
             txn.commit()
         else:
@@ -1070,7 +1109,9 @@ def run(case):
                 if len(before) > 1:
                     classes.add("replacement-commit-with->=2-retained")
             else:
-                changed, mt = do_write(rule[1], kind == "commit", where)
+                changed, mt = do_write(rule[1], kind == "commit", where, mid=rule[2] if len(rule) > 2 else None)
+                if midstate:
+                    before, nlog = midstate.pop("before"), midstate.pop("nlog")
             now = w.ids()
             if kind == "commit" and changed:
                 new = now[-1]
@@ -1097,33 +1138,9 @@ def run(case):
                 classes.add("empty-commit" if kind == "commit" else ("rollback-with-writes" if mt.touched else "rollback"))
                 invariants(where, before, False, nlog=nlog)
         elif kind == "max_versions":
-            n = rule[1]
-            if n == 0:
-                try:
-                    zone.set_max_versions(0)
-                except ValueError:
-                    classes.add("max-versions-0-rejected")
-                else:
-                    raise Violation("retention", "set_max_versions(0) did not raise ValueError", "max0")
-                invariants(where, before, False, nlog=nlog)
-            else:
-                zone.set_max_versions(n)
-                w.policy = ("keep_all",) if n is None else ("max", n)
-                w.wrap_policy()
-                invariants(where, before, True, nlog=nlog, logged=False)
-                classes.add("set_max_versions")
+            apply_policy_rule(rule, where, before, nlog)
         elif kind == "policy":
-            spec = tuple(rule[1])
-            if spec[0] == "default":
-                zone.set_pruning_policy(None)
-                w.policy = spec
-                w.wrap_policy()
-                invariants(where, before, True, nlog=nlog, logged=False)
-            else:
-                w.policy = spec
-                zone.set_pruning_policy(w.make_policy(spec))
-                invariants(where, before, True, nlog=nlog)
-            classes.add("policy:" + spec[0])
+            apply_policy_rule(rule, where, before, nlog)
         elif kind == "probe_id":
             # public cross-check of the white-box version list: every committed id and a few others
             hids = [h["id"] for h in history]
@@ -1211,6 +1228,9 @@ def _rule():
         st.tuples(st.just("commit"), serial_bump),
         st.tuples(st.just("commit"), st.just([])),
         st.tuples(st.just("rollback"), ops),
+        st.tuples(st.sampled_from(["commit", "rollback", "rollback"]), st.one_of(ops, st.just([])), st.one_of(
+            st.tuples(st.just("max_versions"), st.sampled_from([None, 1, 2, 3])).map(list),
+            st.tuples(st.just("policy"), policy).map(list))),
         st.tuples(st.just("commit_repl"), ops, st.integers(1, 9)),
         st.tuples(st.just("max_versions"), st.sampled_from([None, 1, 2, 3, 0])),
         st.tuples(st.just("policy"), policy),
@@ -1250,6 +1270,7 @@ def _require():
         "excluded:btree-setattr": 10,
         "caller-held-rdataset-mutated-after-commit": 100,
         "replacement-commit-with-reader-open": 100,
+        "policy-change-while-writer-open": 200,
         "replacement-commit-with->=2-retained": 100,
         "__nontrivial__": 100,
     }
